@@ -49,6 +49,8 @@ def main(argv=None):
     if args.replay:
         return do_replay(mod, prop, args.replay)
     units = [n for n, _ in mod.UNITS]
+    if tier == "quick":
+        units = [u for u in units if u not in getattr(mod, "THOROUGH_ONLY", ())]
     if args.only:
         units = [u for u in units if args.only in u]
     results = runner.run_units(f"pdv.contracts.{prop}", units, tier, jobs=args.jobs)
@@ -75,7 +77,7 @@ def main(argv=None):
             broken.append(("bounded", "crash", f"{type(e).__name__}: {e}", traceback.format_exc()[-2000:]))
 
     # ---- baseline of obligation names
-    base_path = os.path.join(VERIF, "baselines", f"{prop}.json")
+    base_path = os.path.join(VERIF, "baselines", f"{prop}.{tier}.json")
     names = sorted(o["name"] for o in obligations)
     if args.write_baseline:
         os.makedirs(os.path.dirname(base_path), exist_ok=True)
